@@ -100,6 +100,27 @@ def build(ctx):
                                     cap=ctx.q(300, 900), backends=["minisat", "kissat"], meta={"big_loops": ["ref_walk_%s.%d" % (mname, x) for x in range(16)]},
                                     desc="%s.%s: %s on a view bound to malloc(n), every n in 0..%d: handler invoked or no out-of-bounds access; no spurious handler when the image fits" % (sch.ns, mname, a[0], nmax),
                                     bounds={"NMAX": nmax, "G": G, "D": D, "E": E, "std": "c++" + std}))
+    # hostile group header: blockLength and numInGroup of a flat group are ANY uint16 values, the view is short, the entry index is any valid index
+    msgg = sch.message("grp")
+    gg = msggen.MG(sch, msgg, 2)
+    ug = ctx.lower("c10_%s_%s" % (sch.ns, "grp"), gg.cpp_prelude() + gg.cpp_getset(True) + gg.cpp_geom(True, True) + gg.cpp_cursor() + cpp_extra(gg) + c17.cpp(gg) + c05.cpp_traits(gg).split("\n")[-2] + "\n",
+                   std="17", mode="checked", incs=[inc])
+    for (label, call) in (("get_g_a", "CALL(get_grp_g_a(buf, n, i0, 0));"), ("set_g_e", "IN(u64, v); CALL(set_grp_g_e(buf, n, i0, 0, v));"),
+                          ("get_g_in_y", "CALL(get_grp_g_in_y(buf, n, i0, 0));"), ("ginfo_g", "i64 o[6]; CALL(ginfo_grp_g(buf, n, i0, 0, o));"),
+                          ("gbytes_g", "CALL(gbytes_grp_g(buf, n, 0, 0));"), ("ebytes_g", "CALL(ebytes_grp_g(buf, n, i0, 0));")):
+        body = """  enum { NMAX = 28 };
+  IN_BYTES(img, NMAX); IN(u64, n); VASSUME(n <= NMAX);
+  /* grp: header(8) | root block (compiled 4, wire == 4) | group g: {blockLength u16, numInGroup u16} at 12: BOTH ANY VALUE | entries ... */
+  img[%(obl)d] = 4; img[%(obl)d + 1] = 0;
+  u64 cnt = ref_rd(img + 14, 2, 0);
+  unsigned char *buf = VMALLOC(n); for (unsigned i = 0; i < NMAX; i++) if (i < n) buf[i] = img[i];
+  IN(u32, i0); VASSUME(i0 < cnt);
+  %(call)s
+  VASSERT(verif_aborted || !verif_oob, "hostile group header: if the assertion handler is not invoked, no byte at or beyond p+n was accessed");
+""" % {"obl": gg.hdr["blockLength"][0], "call": call}
+        hs.append(P.Harness("%s_grp_hostile_header_%s_cxx17" % (sch.ns, label), hgen.harness([ug], body), [ug], unwind=4, track=True, cap=ctx.q(300, 900), backends=["minisat", "kissat", "z3"],
+                            desc="%s.grp: %s with the group's wire blockLength and numInGroup ANY uint16 values, any valid entry index, view bound to malloc(n), n in 0..28" % (sch.ns, label),
+                            bounds={"NMAX": 28, "blockLength": "0..65535", "numInGroup": "0..65535", "index": "< numInGroup", "std": "c++17"}))
     # hostile / extreme <data> length: a length prefix at the top of its (uint8) type with a view shorter than the message
     msg = sch.message("odd")
     g = msggen.MG(sch, msg, 1)
